@@ -5,6 +5,7 @@ package main
 import (
 	"fmt"
 	"strings"
+	"sync"
 
 	"github.com/formancehq/numscript"
 	"github.com/formancehq/numscript/internal/parser"
@@ -327,6 +328,89 @@ func runC14(c *fw.Ctx) {
 			}
 		}
 	}
+	// two faults far apart: a statement with a token missing, spread over lines, a block of blank
+	// lines that reaches a power of ten somewhere in it, and a character the lexer does not know
+	// later in the same statement (the lexer reports its error while the parser is still looking ahead)
+	for i := 0; i < c.N(120, 2400); i++ {
+		id := "twoerrors/" + itoa(i)
+		if !c.Want(4_600_000+i, id) {
+			continue
+		}
+		r := c.Rng(id)
+		toks := strings.Fields("send [ USD 1 ] ( source = @a destination = @b ) set_tx_meta ( \"k\" , 1 )")
+		drop := r.Intn(len(toks))
+		toks = append(toks[:drop:drop], toks[drop+1:]...)
+		g1 := r.Intn(len(toks))
+		g2 := g1 + r.Intn(len(toks)-g1)
+		blanks := []int{98, 99, 100, 998, 999, 1000, 1001, 1002, 9998, 9999, 10000, 10001}[r.Intn(12)] - r.Intn(4)
+		lead := r.Intn(6)
+		var b strings.Builder
+		b.WriteString(strings.Repeat("\n", lead))
+		for k, t := range toks {
+			if k == g1 {
+				b.WriteString(strings.Repeat("\n", blanks))
+			}
+			if k == g2 {
+				b.WriteString(r.Pick("#", "?", "~", "!", "\\", "&", "€") + r.Pick(" ", "\n", ""))
+			}
+			b.WriteString(t)
+			b.WriteString(r.Pick(" ", " ", "\n"))
+		}
+		c.Count("two_fault_texts", 1)
+		if !checkText(c, b.String(), "two-faults-far-apart", false) {
+			return
+		}
+	}
+	// several goroutines parse and render the errors of DIFFERENT texts at once: each must get
+	// what it gets alone
+	for i := 0; i < c.N(12, 120); i++ {
+		id := "concurrent/" + itoa(i)
+		if !c.Want(4_700_000+i, id) {
+			continue
+		}
+		r := c.Rng(id)
+		const nG = 8
+		texts := make([]string, nG)
+		want := make([]string, nG)
+		for g := range texts {
+			lines := 1 + r.Intn(30)*(g+1)
+			texts[g] = strings.Repeat("send [USD 10] (source = @a destination = @b)\n", lines) + r.Pick("send [USD", "send [USD 1] (source = destination = @b)", "@", "vars {", "# é") + "\n" + strings.Repeat("\n", r.Intn(3))
+			t := texts[g]
+			if !c.Guard("ParseErrorsToString", func() any { return map[string]any{"text": t} }, func() {
+				want[g] = numscript.ParseErrorsToString(numscript.Parse(t).GetParsingErrors(), t)
+			}) {
+				return
+			}
+		}
+		var wg sync.WaitGroup
+		bad := make([]string, nG)
+		for g := 0; g < nG; g++ {
+			wg.Add(1)
+			go func(g int) {
+				defer wg.Done()
+				for rep := 0; rep < 60 && bad[g] == ""; rep++ {
+					var got string
+					p, v, fr := fw.Catch(func() {
+						got = numscript.ParseErrorsToString(numscript.Parse(texts[g]).GetParsingErrors(), texts[g])
+					})
+					if p {
+						bad[g] = fmt.Sprintf("panic (%s): %v", fr, v)
+					} else if got != want[g] {
+						bad[g] = fmt.Sprintf("rendered %q; alone it renders %q", got, want[g])
+					}
+				}
+			}(g)
+		}
+		wg.Wait()
+		c.Evals(nG * 60)
+		c.Count("concurrent_parse_and_render_runs", nG*60)
+		for g, m := range bad {
+			if m != "" {
+				c.Violation("concurrent-render-differs", fmt.Sprintf("while %d goroutines render the errors of different texts: goroutine %d: %s", nG, g, m), map[string]any{"texts": texts, "goroutine": g})
+				return
+			}
+		}
+	}
 	for _, stmts := range []int{200, 800, 1400} {
 		id := "long/" + itoa(stmts)
 		if !c.Want(5_000_000+stmts, id) {
@@ -406,6 +490,14 @@ func runC15(c *fw.Ctx) {
 				}
 			}
 			var res parser.ParseResult
+			if twin := strings.TrimRight(pr.Text, " \t\r\n"); twin != pr.Text && i%2 == 0 {
+				// what an editor sends just before: the same text without its trailing blanks
+				// (not the same script when it ends in a line comment); parsed first, result unused
+				if !c.Guard("parser.Parse", func() any { return map[string]any{"text": twin} }, func() { parser.Parse(twin) }) {
+					return
+				}
+				c.Count("near_identical_texts_parsed_just_before", 1)
+			}
 			if !c.Guard("parser.Parse", input, func() { res = parser.Parse(pr.Text) }) {
 				return
 			}
